@@ -20,7 +20,6 @@ use processor::{
 use rand::Rng;
 use serde_json::{json, Value};
 use std::collections::{BTreeMap, BTreeSet, HashMap};
-use vm_core::StarkField;
 use winter_prover::Trace;
 
 pub fn meta() -> Meta {
@@ -532,8 +531,11 @@ impl<'a> Gen<'a> {
     fn gen_body(&mut self, f0: &FrameCtx, n: usize, b: &mut Vec<Ins>) {
         let mut f = *f0;
         let mut return_depth_fail = false;
-        // a real operation first so that the probe never sits alone in a span
-        b.push(Ins::Push(0));
+        // a real operation first so that the probe never sits alone in a span; the constant is unique so
+        // that no two generated procedures share a MAST root (the assembler's procedure cache is keyed by
+        // MAST root: `call.f1` would otherwise run the decorators, i.e. the probes, of its twin)
+        let uniq = self.fresh();
+        b.push(Ins::Push(uniq));
         b.push(Ins::Drop);
         b.push(self.probe("entry"));
         for _ in 0..n {
@@ -558,7 +560,7 @@ impl<'a> Gen<'a> {
                 let mut a = self.valid_addr();
                 if op >= 4 && a == A32 - 1 {
                     // the second word would be out of range: that is a planned-failure gadget
-                    a = A32 - 2;
+                    a = A30 - 1;
                 }
                 self.g_mem(b, op, a);
             } else if r < 68 && f.locals > 0 {
@@ -1499,18 +1501,23 @@ pub fn compare(case: &Case, m: &ModelOut, real: &RealRun, rep: &mut Report, wit:
             rep.violation(format!("spurious-failure/{next_tag}/{k}"), format!("the script is valid but execution failed before probe '{next_tag}': {d}"), wit());
             clean = false;
         }
-        (None, RealOutcome::Panic(site, d))
-            if (next_tag == "mem_stream" || next_tag == "adv_pipe")
+        (_, RealOutcome::Panic(site, d))
+            if real.probes.len() < m.probes.len()
+                && (next_tag == "mem_stream" || next_tag == "adv_pipe")
                 && m.probes.get(real.probes.len()).map(|p| p.stack.get(12) == Some(&A32)).unwrap_or(false) =>
         {
             rep.violation(
-                format!("{next_tag}/next-address-overflow/panic"),
+                format!("{next_tag}/next-address-wrap/panic"),
                 format!("{next_tag} at address 2^32-2: computing a' = a + 2 panicked at {site}: {d}"),
                 wit(),
             );
             clean = false;
         }
         (None, RealOutcome::Panic(site, d)) => {
+            rep.violation(format!("panic/{next_tag}/{site}"), format!("the script is valid but the processor panicked before probe '{next_tag}': {d}"), wit());
+            clean = false;
+        }
+        (Some(_), RealOutcome::Panic(site, d)) if real.probes.len() < m.probes.len() => {
             rep.violation(format!("panic/{next_tag}/{site}"), format!("the script is valid but the processor panicked before probe '{next_tag}': {d}"), wit());
             clean = false;
         }
@@ -1531,8 +1538,7 @@ pub fn compare(case: &Case, m: &ModelOut, real: &RealRun, rep: &mut Report, wit:
             }
         }
         (Some(f), RealOutcome::Panic(site, d)) => {
-            let base = if f.sig.ends_with("addr-wrap") { f.sig.replace("addr-wrap", "addr-overflow") } else { f.sig.clone() };
-            rep.violation(format!("{base}/panic"), format!("{} — expected an execution error, the processor panicked at {site}: {d}", f.why), wit());
+            rep.violation(format!("{}/panic", f.sig), format!("{} — expected an execution error, the processor panicked at {site}: {d}", f.why), wit());
             clean = false;
         }
     }
@@ -1668,7 +1674,12 @@ fn run_one(rng: &mut Rng8, rep: &mut Report, loc_off: u64, idx: usize) {
             rep.count("address_class", &format!("{op}:{cls}"));
         }
         for pe in &m.probes {
-            rep.count("nesting", &pe.path);
+            let segs: Vec<&str> = pe.path.split('>').collect();
+            if segs.len() <= 4 {
+                rep.count("nesting", &pe.path);
+            } else {
+                rep.count("nesting", &format!("{}>…", segs[..4].join(">")));
+            }
         }
     }
     if idx % 101 == 0 {
@@ -1749,9 +1760,43 @@ fn expect_fail(rep: &mut Report, name: &str, sig: &str, case: Case, asm_may_reje
             rep.count("planned_failure_error_kind", &format!("{sig}:{k}"));
         }
         RealOutcome::Panic(site, d) => {
-            let base = if sig.ends_with("addr-wrap") { sig.replace("addr-wrap", "addr-overflow") } else { sig.to_string() };
-            rep.violation(format!("{base}/panic"), format!("fixed case {name}: processor panicked at {site}: {d}"), wit)
+            rep.violation(format!("{sig}/panic"), format!("fixed case {name}: processor panicked at {site}: {d}"), wit)
         }
+    }
+}
+
+/// Fixed witness with an expectation on final stack positions: (pos, Ok(value)) or (pos, Err(other pos)).
+fn expect_stack(rep: &mut Report, name: &str, sig: &str, what: &str, case: Case, checks: &[(usize, Result<u64, usize>)]) {
+    rep.eval(&format!("fixed|{name}"));
+    rep.count("fixed", name);
+    let wit = json!({
+        "kind": "expect-stack", "name": name, "sig": sig, "what": what, "case": case.to_json(),
+        "checks": checks.iter().map(|(p, c)| match c { Ok(v) => json!([p, "eq", v]), Err(q) => json!([p, "same-as", q]) }).collect::<Vec<_>>(),
+    });
+    let prog = match case.assemble() {
+        AsmOutcome::Ok(p) => p,
+        _ => {
+            rep.inconclusive(format!("fixed-case-did-not-assemble:{name}"));
+            return;
+        }
+    };
+    let real = run_real(&case, &prog, None);
+    match real.outcome {
+        RealOutcome::Ok(t) => {
+            let st = t.stack_outputs().stack();
+            for (p, c) in checks {
+                let want = match c {
+                    Ok(v) => *v,
+                    Err(q) => st[*q],
+                };
+                if st[*p] != want {
+                    rep.violation(sig, format!("{what}: final stack position {p} is {} expected {want}; final stack {:?}", st[*p], &st[..16]), wit);
+                    return;
+                }
+            }
+        }
+        RealOutcome::Err(k, d) => rep.violation(format!("spurious-failure/{name}/{k}"), format!("fixed case {name} failed: {d}"), wit),
+        RealOutcome::Panic(site, d) => rep.violation(format!("{sig}/panic"), format!("fixed case {name}: processor panicked at {site}: {d}"), wit),
     }
 }
 
@@ -1778,6 +1823,36 @@ fn fixed_cases(rep: &mut Report) {
             let c = Case::new(code).with_advice(&[1, 2, 3, 4, 5, 6, 7, 8]);
             expect_fail(rep, &format!("{op}@{}", addr_class(a)), sig, c, false);
         }
+    }
+    // last valid position of the two-word instructions: a' = a + 2 = 2^32
+    expect_stack(
+        rep,
+        "mem_stream@2^32-2",
+        "mem_stream/next-address-wrap",
+        "mem_stream at address 2^32-2 must leave a' = a + 2 = 2^32",
+        Case::new(format!("begin push.{} padw padw padw mem_stream end", A32 - 2)),
+        &[(12, Ok(A32))],
+    );
+    expect_stack(
+        rep,
+        "adv_pipe@2^32-2",
+        "adv_pipe/next-address-wrap",
+        "adv_pipe at address 2^32-2 must leave a' = a + 2 = 2^32",
+        Case::new(format!("begin push.{} padw padw padw adv_pipe end", A32 - 2)).with_advice(&[1, 2, 3, 4, 5, 6, 7, 8]),
+        &[(12, Ok(A32))],
+    );
+    // caller = MAST root of the procedure whose context made the syscall (call and dyncall)
+    for (how, code) in [("call", "proc.f dropw syscall.k end begin padw call.f procref.f end"), ("dyncall", "proc.f dropw syscall.k end begin procref.f dyncall procref.f end")] {
+        let mut c = Case::new(code);
+        c.kernel = Some("export.k caller end".into());
+        expect_stack(
+            rep,
+            &format!("caller-after-{how}"),
+            &format!("caller/wrong-hash-after-{how}"),
+            &format!("caller inside a syscall made by a procedure invoked with {how} must yield that procedure's MAST root (positions 4..7) = procref (positions 0..3)"),
+            c,
+            &[(4, Err(0)), (5, Err(1)), (6, Err(2)), (7, Err(3))],
+        );
     }
     // immediate form with an address >= 2^32: must be rejected (at assembly or at run time)
     expect_fail(rep, "mem_load.imm@2^32", "mem_load/invalid-address", Case::new(format!("begin mem_load.{A32} end")), true);
@@ -1865,7 +1940,7 @@ pub fn run(cfg: &Cfg) -> Report {
         }
     };
     let shards = 64;
-    let per = cfg.n(3000, 30000);
+    let per = cfg.n(5000, 60000);
     let mut reports = par_map(shards, |sh| {
         let mut rng = rng_for(cfg.seed, "C07", sh as u64);
         let mut rep = Report::new();
@@ -1925,6 +2000,21 @@ pub fn replay(v: &Value, rep: &mut Report) {
                 let wit = || json!({"kind": "ctx", "case": case.to_json()});
                 compare(&case, &m, &real, rep, &wit);
             }
+        }
+        "expect-stack" => {
+            let name = v.get("name").and_then(|s| s.as_str()).unwrap_or("replay").to_string();
+            let sig = v.get("sig").and_then(|s| s.as_str()).unwrap_or("expect-stack").to_string();
+            let what = v.get("what").and_then(|s| s.as_str()).unwrap_or("").to_string();
+            let mut checks = vec![];
+            for c in v.get("checks").and_then(|c| c.as_array()).cloned().unwrap_or_default() {
+                let p = c[0].as_u64().unwrap_or(0) as usize;
+                if c[1].as_str() == Some("eq") {
+                    checks.push((p, Ok(c[2].as_u64().unwrap_or(0))));
+                } else {
+                    checks.push((p, Err(c[2].as_u64().unwrap_or(0) as usize)));
+                }
+            }
+            expect_stack(rep, &name, &sig, &what, case, &checks);
         }
         "must-fail" => {
             let name = v.get("name").and_then(|s| s.as_str()).unwrap_or("replay").to_string();
